@@ -24,7 +24,7 @@ CHECKS = {
             "pipes of real child processes are replaced by send_data calls with the chunking of resend_stdio", "5/C19"),
     "C20": ("AUTH", "exploration", "property-based testing with a generated man-in-the-middle and a provenance-based reference model of acceptance",
             "Three honest do_authentication endpoints over in-memory duplex streams, an earlier clean session for replays, and an adversary that forwards/drops/reflects/replays/splices/edits each of the handshake messages; an endpoint must accept iff it received a request with its protocol, expected peer role and compatible mode and a response that is NoAuth (no key) or byte-identical to a proof produced by an honest holder of the same key with the expected role for this connection's challenge; sealed messages must round-trip after a clean handshake.",
-            "cryptographic strength of orion assumed; my_role != peer_role; before the generated search a wiring phase starts the real server (init_hq_server) with two different keys and tries all 32 combinations of port x role pair x key x protocol number as a connecting peer (only the two matching ones may be accepted), and a connector phase runs HyperQueue's client connector against a harness listener for all 310 sequences (length <= 3) of {close, garbage, honest server without key / with the client's key / with another key}; the worker-side connector is not driven", "5/C20"),
+            "cryptographic strength of orion assumed; my_role != peer_role; before the generated search a wiring phase starts the real server (init_hq_server) with two different keys and tries all 32 combinations of port x role pair x key x protocol number as a connecting peer (only the two matching ones may be accepted), and a connector phase runs HyperQueue's client connector against a harness listener for all 310 sequences (length <= 3) of {close, garbage, honest server without key / with the client's key / with another key}; a worker connector phase runs tako's connect_to_server_and_authenticate (called by the worker's registration loop for every attempt) against 8 listener behaviours x worker with / without key (exhaustive, 16 cases); the retry loop around it (connect_and_register, 10 s real-time delays) is not driven", "5/C20"),
     "C16": ("ALLOC", "exploration", "property-based differential testing: real allocator vs brute-force reference over all group subsets",
             "For every request the grant/refusal and the groups used are compared with an exhaustive reference on the pre-state snapshot: feasibility (non-strict requests never refused spuriously, never granted infeasibly), minimum groups now (compact/tight), minimum groups on the empty worker (strict, if granted), maximum spread (scatter), `all`, single fractional index, is_enabled == try_allocate, no panic.",
             "coupling weights <= 256 with at most 3 items; refusals of strict requests are not judged", "5/C16"),
